@@ -5,6 +5,8 @@ import AcraModel.CrossClient.Keys
 import AcraModel.CrossClient.Token
 import AcraModel.CrossClient.Tls
 import AcraModel.CrossClient.BoxLaws
+import AcraModel.CrossClient.Box45
+import AcraModel.Crypto.Shim
 /-!
 # C02 — data protected for one client is never revealed under another identity
 
@@ -381,5 +383,120 @@ theorem tls_cross_client {c : CryptoOps} (hl : SealLaws c) (hc : SealCommit c) (
   unfold wrapperMethod
   cases hd : row.defined <;> simp only [hd, hov, Bool.not_false, Bool.not_true, if_true, if_false]
   exact cross_client_decrypt hl hc hm hp hs hab hown
+
+/-! ## non-vacuity
+
+The hypotheses of the theorems above are jointly satisfiable by concrete, non-trivial instances:
+`box45` (transparent box with 45-byte key containers and 84-byte wrapped keys) satisfies `SealLaws`,
+`SealCommit`, `MsgCommit`; the histories below contain a rotation on each side; the values are real
+`protect` outputs of both envelope kinds which the owner reveals and the other identity does not. -/
+section NonVacuity
+
+def exRnd (n : Nat) : Bytes := (List.range n).map (fun i => UInt8.ofNat (i + 1))
+def exA : Bytes := [97, 108, 105, 99, 101]        -- "alice"
+def exB : Bytes := [98, 111, 98, 98, 121]         -- "bobby"
+def exPrivA : Bytes := 0 :: List.replicate 44 7
+def exPrivA' : Bytes := 0 :: List.replicate 44 5
+def exPrivB : Bytes := 0 :: List.replicate 44 8
+def exPairs : History := [⟨exA, exPrivA⟩, ⟨exB, exPrivB⟩, ⟨exA, exPrivA'⟩]
+def exSyms : History := [⟨exB, [9, 9]⟩, ⟨exA, [1, 2, 3]⟩, ⟨exB, [4, 5, 6]⟩, ⟨exA, [3, 2, 1]⟩]
+def exStore : Store := storeOf box45 exPairs exSyms
+def exMsg : Bytes := [104, 105]
+def exOf (o : Out Bytes) : Bytes := match o with | .ok v => v | _ => []
+def exBlock : Bytes := exOf (protect box45 (exStore exA) .block exMsg (exRnd 56))
+def exStruct : Bytes := exOf (protect box45 (exStore exA) .struct exMsg (exRnd 96))
+/-- a value written under A's previous symmetric key (before the rotation) -/
+def exOldBlock : Bytes := exOf (do let b ← createBlock box45 [3, 2, 1] [] exMsg (exRnd 56); serialize b idBlock)
+
+example : SealLaws box45 ∧ SealCommit box45 ∧ MsgCommit box45 ∧ Fresh exPairs ∧ Fresh exSyms ∧ exA ≠ exB :=
+  ⟨box45_sealLaws, box45_sealCommit, box45_msgCommit, by unfold Fresh; decide, by unfold Fresh; decide, by decide⟩
+
+set_option maxRecDepth 100000 in
+/-- AcraBlock: the owner reveals, the other identity gets an error (as `cross_client_reveal` says) -/
+example : exBlock.length > 100 ∧ revealAs box45 exStore exA exBlock = .ok exMsg ∧ revealAs box45 exStore exB exBlock = .err := by decide
+
+set_option maxRecDepth 100000 in
+/-- AcraStruct -/
+example : exStruct.length > 200 ∧ revealAs box45 exStore exA exStruct = .ok exMsg ∧ revealAs box45 exStore exB exStruct = .err := by decide
+
+set_option maxRecDepth 100000 in
+/-- a value from before a rotation, translator entry point -/
+example : decryptAs box45 exStore exA .block exOldBlock = .ok exMsg ∧ decryptAs box45 exStore exB .block exOldBlock = .err := by decide
+
+/-- the position hypothesis of `cross_client_column_partial`, as a decidable check -/
+def exPosOk (kvA kvB : KeyView) (buf : Bytes) (i : Nat) : Bool :=
+  match extractContainer (buf.drop i) with
+  | .ok (_, cont) => (process box45 kvA cont).isOk || !(process box45 kvB cont).isOk
+  | _ => true
+
+theorem exPos_sound (kvA kvB : KeyView) (buf : Bytes)
+    (h : (List.range (buf.length + 1)).all (exPosOk kvA kvB buf) = true) :
+    ∀ i, i ≤ buf.length → ∀ cont adv, extractContainer (buf.drop i) = .ok (adv, cont) →
+      (∃ m, process box45 kvA cont = .ok m) ∨ (∀ m, process box45 kvB cont ≠ .ok m) := by
+  intro i hi cont adv he
+  have := List.all_eq_true.mp h i (List.mem_range.mpr (by omega))
+  simp only [exPosOk, he, Bool.or_eq_true, Bool.not_eq_true'] at this
+  rcases this with h1 | h2
+  · left
+    cases hp : process box45 kvA cont with
+    | ok m => exact ⟨m, rfl⟩
+    | err => simp [hp, Out.isOk] at h1
+    | panic => simp [hp, Out.isOk] at h1
+  · right
+    intro m hm
+    simp [hm, Out.isOk] at h2
+
+def exColumn : Bytes := [37, 37] ++ exBlock ++ [34, 34, 34, 34, 0]
+
+set_option maxRecDepth 100000 in
+/-- the position hypothesis of `cross_client_column_partial` holds for a column with A's container between
+a `%%` prefix and a suffix that starts like an AcraBlock (the scan itself is a well-founded recursion the
+kernel does not unfold by `decide`; its results on such columns are compared with the real code by the
+correspondence ops `col` / `colcompat`) -/
+example :
+    ∀ i, i ≤ exColumn.length → ∀ cont adv, extractContainer (exColumn.drop i) = .ok (adv, cont) →
+      (∃ m, process box45 (exStore exA) cont = .ok m) ∨ (∀ m, process box45 (exStore exB) cont ≠ .ok m) :=
+  exPos_sound _ _ _ (by decide)
+
+/-- blind index: an instance with 32-byte HMACs in which the stated inequality holds -/
+def exHashOps : CryptoOps := { boxOps with hmac := fun k m => Shim.fixLen 32 (k ++ m), sha256 := fun m => Shim.fixLen 32 m }
+
+example : HashLen exHashOps ∧ exHashOps.hmac [4, 5, 6] exMsg ≠ exHashOps.hmac [1, 2, 3] exMsg ∧
+    hashVerifyAs exHashOps (fun id => if id = exB then some [4, 5, 6] else none) exB (generateHash exHashOps [1, 2, 3] exMsg) exMsg = false ∧
+    hashVerifyAs exHashOps (fun id => if id = exA then some [1, 2, 3] else none) exA (generateHash exHashOps [1, 2, 3] exMsg) exMsg = true :=
+  ⟨⟨fun _ _ => Shim.fixLen_length _ _, fun _ => Shim.fixLen_length _ _⟩, by decide, by decide, by decide⟩
+
+example : HashInj boxOps := Box.hashInj
+
+/-- tokens: A tokenizes a value, B tokenizes another one and draws the very same token; each gets its own
+value back and never the other's; a token nobody of that identity owns comes back unchanged -/
+def exTokOps : List TokOp := [⟨exA, [1, 1, 1], 4, [[7, 7, 7]]⟩, ⟨exB, [2, 2, 2], 4, [[7, 7, 7]]⟩, ⟨exA, [3, 3, 3], 4, [[7, 7, 7], [8, 8, 8]]⟩]
+
+example : detokenize boxOps (runTok boxOps [] exTokOps) exA [7, 7, 7] 4 = .ok [1, 1, 1] ∧
+    detokenize boxOps (runTok boxOps [] exTokOps) exB [7, 7, 7] 4 = .ok [2, 2, 2] ∧
+    detokenize boxOps (runTok boxOps [] exTokOps) exB [8, 8, 8] 4 = .ok [8, 8, 8] ∧
+    detokenize boxOps (runTok boxOps [] exTokOps) exA [8, 8, 8] 4 = .ok [3, 3, 3] := by decide
+
+/-- stored keys: a key can be saved for A (the premise of `stored_key_bound_v1/2` is satisfiable) and
+loads for A -/
+example : ∃ fs, v1Save boxOps [42] [] .storageSym exA [1, 2, 3] (exRnd 12) = some fs ∧
+    v1Load boxOps [42] fs .storageSym exA = some [1, 2, 3] ∧
+    v1Load boxOps [42] (fs.copy (v1FileName .storageSym exA) (v1FileName .searchHmac exB)) .searchHmac exB = none :=
+  ⟨_, rfl, by decide, by decide⟩
+
+example : ∃ blob, v2KeyEncrypt boxOps [42] (v2RingPath .storageSym exA) .symmetricKey 1 [1, 2, 3] (exRnd 12) = some blob ∧
+    v2KeyDecrypt boxOps [42] (v2RingPath .storageSym exA) .symmetricKey 1 blob = some [1, 2, 3] ∧
+    v2KeyDecrypt boxOps [42] (v2RingPath .storageSym exB) .symmetricKey 1 blob = none ∧
+    v2KeyDecrypt boxOps [42] (v2RingPath .storageSym exA) .symmetricKey 2 blob = none ∧
+    v2KeyDecrypt boxOps [42] (v2RingPath .storageSym exA) .privateKey 1 blob = none ∧
+    (58 : UInt8) ∉ v2RingPath .storageSym exA ∧ (58 : UInt8) ∉ v2RingPath .storageSym exB ∧
+    v2RingPath .storageSym exA ≠ v2RingPath .storageSym exB :=
+  ⟨_, rfl, by decide, by decide, by decide, by decide, by decide, by decide, by decide⟩
+
+/-- the TLS table is inhabited and a forged id is ignored on a concrete row -/
+example : rpcTable.length = 11 ∧
+    (rpcTable.map fun row => forwardedId row (some exB) ⟨exA, []⟩) = List.replicate 11 (some exB) := by decide
+
+end NonVacuity
 
 end AcraModel.Props.C02
